@@ -57,6 +57,17 @@ package runs
 //@   ensures [kept_if_short] old(runes(result.Value)) <= r.session.(*engine.session).engine.(*engine.engine).options.MaxResultChars ==> result.Value == old(result.Value)
 //@   records resultSaved(r, old(result.Name), old(result.Value), old(result.Category), old(result.Input), old(result.NodeUUID))
 
+// ---- C01: exited_on is set exactly for completed, failed and expired runs
+//@ pred runWF(r *run) bool := (r.exitedOn != nil) <==> (r.status == flows.RunStatusCompleted || r.status == flows.RunStatusFailed || r.status == flows.RunStatusExpired)
+
+//@ func (r *run) Exit
+//@   assigns r.status, r.exitedOn, r.modifiedOn
+//@   ensures [exited] r.status == status && r.exitedOn != nil
+
+//@ func (r *run) SetStatus
+//@   assigns r.status, r.modifiedOn
+//@   ensures [status_only] r.status == status
+
 // ---- C10 / C01: run location
 //@ func (r *run) PathLocation
 //@   nopanic
